@@ -45,16 +45,18 @@ class PathEnd(Exception):
 
 
 class Obligation:
-    __slots__ = ('name', 'pc', 'goal', 'where', 'kind')
+    __slots__ = ('name', 'pc', 'goal', 'where', 'kind', 'defs')
 
-    def __init__(self, name, pc, goal, where='', kind='post'):
+    def __init__(self, name, pc, goal, where='', kind='post', defs=None):
         self.name, self.pc, self.goal, self.where, self.kind = name, pc, goal, where, kind
+        self.defs = defs or {}
 
 
 class ClassSpec:
     """Field table of a class as seen by the contracts (sidecar, not an edit of /repo)."""
-    def __init__(self, name, live=None, fields=None, bases=()):
+    def __init__(self, name, live=None, fields=None, bases=(), methods=None):
         self.name, self.live, self.fields, self.bases = name, live, dict(fields or {}), bases
+        self.methods = dict(methods or {})     # interface methods: name -> stub function (contract keyed by it)
 
 
 class World:
@@ -85,6 +87,19 @@ class World:
             stack.extend(sp.bases)
         return None, None
 
+    def method(self, cls, name):
+        seen, stack = set(), [cls]
+        while stack:
+            c = stack.pop(0)
+            if c in seen or c not in self.classes:
+                continue
+            seen.add(c)
+            sp = self.classes[c]
+            if name in sp.methods:
+                return sp.methods[name]
+            stack.extend(sp.bases)
+        return None
+
     def add_contract(self, c):
         self.contracts[id(c.fn)] = c
         self.by_name[c.name] = c
@@ -105,7 +120,7 @@ class Contract:
     def __init__(self, name, fn, params, result=None, requires=None, ensures=None, raises=None,
                  modifies=None, loops=None, decreases=None, depth=None, assumed=False,
                  raises_post=None, pure=False, locals_types=None, cls=None, ghost_args=None,
-                 may_raise_any=False, notes=''):
+                 may_raise_any=False, notes='', allow_implicit=()):
         self.name, self.fn = name, getattr(fn, '__func__', fn)
         self.params, self.result = params, result
         self.requires, self.ensures = requires, ensures
@@ -119,6 +134,7 @@ class Contract:
         self.pure = pure
         self.cls = cls
         self.may_raise_any = may_raise_any
+        self.allow_implicit = tuple(allow_implicit)
         self.notes = notes
 
 
@@ -150,6 +166,19 @@ class Cx:
 
     def new(self, ref): return HeapView(self.ctx, self._new if self._new is not None else self._old, ref)
 
+    def unchanged(self, *fieldkeys):
+        """whole-field frame clause: the heap arrays of Class.field are equal before and after"""
+        out = []
+        new = self._new if self._new is not None else self._old
+        for fk in fieldkeys:
+            cls, f = fk.split('.')
+            key, ty = self.ctx.heap_key(cls, f)
+            for sfx, so in ty.comps():
+                a = self.ctx.heap_arrays(key, ty, new)
+                b = self.ctx.heap_arrays(key, ty, self._old)
+            out += [x == y for x, y in zip(a, b)]
+        return z3.And(out) if out else z3.BoolVal(True)
+
     def l(self, name):
         v = self.L[name]
         return v.term if hasattr(v, 'term') else v
@@ -178,7 +207,11 @@ class Ctx:
         self.self_contract = None
         self.rec_calls = []
         self.wf_done = set()
+        self.keep = []
         self.feas_unknown = 0
+        self.splits = []
+        self.defs = {}
+        self.decomps = Decomps(self)
 
     # ---- fresh symbols / path condition
     def fresh(self, name, sort):
@@ -189,24 +222,45 @@ class Ctx:
     def fresh_of(self, name, ty):
         return ty.wrap([self.fresh(name + s, so) for s, so in ty.comps()])
 
-    def assume(self, cond):
+    def assume(self, cond, defines=None):
+        """defines: names of the fresh symbols this formula merely DEFINES (slice parts, lemma
+        instances ...).  Such a formula is only put into a query that mentions one of them."""
         if z3.is_true(cond):
             return
         self.pc.append(cond)
-        self.solver.add(cond)
+        if defines:
+            self.defs[cond.get_id()] = (cond, frozenset(str(d) for d in defines))
 
     def feasible(self, cond=None):
+        """May this path condition (plus cond) be satisfiable?  Decided on an over-approximating
+        abstraction (pyvc.smt.Abstractor), except in regular-string mode where regex folding is exact."""
         if cond is not None and z3.is_false(z3.simplify(cond)):
             return False
-        from .smt import fold_check
-        r = fold_check(self.pc + ([cond] if cond is not None else []), FEAS_TIMEOUT_MS)
-        if r is not None and r != z3.unknown:
-            return r == z3.sat
-        self.solver.push()
+        from .smt import fold_check, Abstractor
+        from . import strings as S
+        if S.REGULAR_MODE:
+            r = fold_check(self.pc + ([cond] if cond is not None else []), FEAS_TIMEOUT_MS)
+            if r is not None and r != z3.unknown:
+                return r == z3.sat
+        if not hasattr(self, 'absr'):
+            self.absr = Abstractor()
+            self.abs_solver = z3.Solver()
+            self.abs_solver.set('timeout', FEAS_TIMEOUT_MS)
+            self.abs_done = 0
+            self.abs_side = 0
+        while self.abs_done < len(self.pc):
+            self.abs_solver.add(self.absr.abs(self.pc[self.abs_done]))
+            self.abs_done += 1
+        self.abs_solver.push()
         if cond is not None:
-            self.solver.add(cond)
-        r = self.solver.check()
-        self.solver.pop()
+            self.abs_solver.add(self.absr.abs(cond))
+        for sd in self.absr.side[self.abs_side:]:
+            self.abs_solver.add(sd)
+        r = self.abs_solver.check()
+        self.abs_solver.pop()
+        while self.abs_side < len(self.absr.side):     # side facts (lengths >= 0) are permanent
+            self.abs_solver.add(self.absr.side[self.abs_side])
+            self.abs_side += 1
         if r == z3.unknown:
             self.feas_unknown += 1
         return r != z3.unsat
@@ -231,14 +285,16 @@ class Ctx:
         return k
 
     def branch(self, cond):
-        cond = z3.simplify(cond)
-        if z3.is_true(cond): return True
-        if z3.is_false(cond): return False
+        # simplify only to detect literals: the rewritten form (seq.nth -> nth_i/nth_u ITEs, ...) is
+        # not what the rest of the path condition talks about, so the original term goes into the pc
+        cs = z3.simplify(cond)
+        if z3.is_true(cs): return True
+        if z3.is_false(cs): return False
         return self.choose([cond, z3.Not(cond)]) == 0
 
     def oblige(self, name, goal, kind='post'):
         where = self.fn_stack[-1] if self.fn_stack else ''
-        self.obligations.append(Obligation(name, list(self.pc), goal, where, kind))
+        self.obligations.append(Obligation(name, list(self.pc), goal, where, kind, self.defs))
 
     # ---- heap
     def heap_key(self, cls, field):
@@ -264,7 +320,7 @@ class Ctx:
         if key is None:
             raise OutOfSubset('no field %s on %s' % (field, ref.cls))
         arrs = self.heap_arrays(key, ty, heap)
-        terms = [z3.simplify(z3.Select(a, ref.term)) for a in arrs]
+        terms = [select_store(a, ref.term) for a in arrs]
         v = ty.wrap(terms)
         origin = (ref, field)
         return self.load(v, origin, split)
@@ -293,6 +349,7 @@ class Ctx:
         if 'store' in s or t.get_id() in self.wf_done:
             return
         self.wf_done.add(t.get_id())
+        self.keep.append(t)       # ids of freed ASTs are recycled by z3: keep cache keys alive
         self.assume(t >= 0)
 
     def store_terms(self, v, ty):
@@ -307,7 +364,7 @@ class Ctx:
         if isinstance(ty, _v._TOpaque):
             if isinstance(v, VOpaque) and v.term is not None:
                 return [v.term]
-            if hasattr(v, 'term') and v.term.sort() == IntSort:
+            if getattr(v, 'term', None) is not None and v.term.sort() == IntSort:
                 return [v.term]
             return [self.fresh('opq', IntSort)]
         if isinstance(v, VEmptyList):
@@ -376,7 +433,7 @@ class Ctx:
         return z3.Select(d.dom, k.terms()[0])
 
     def dict_get(self, d, k):
-        terms = [z3.simplify(z3.Select(a, k.terms()[0])) for a in d.vals]
+        terms = [select_store(a, k.terms()[0]) for a in d.vals]
         v = d.v.wrap(terms)
         return self.load(v, ('dict', d, k))
 
@@ -392,6 +449,61 @@ class Ctx:
     def dict_del(self, d, k):
         d.dom = z3.Store(d.dom, k.terms()[0], z3.BoolVal(False))
         self.writeback(d)
+
+
+def select_store(arr, idx):
+    """Select(arr, idx) resolved through a Store chain by syntactic index comparison only
+    (no rewriting of the stored terms - z3.simplify turns seq.nth into nth_i/nth_u ITEs)."""
+    a = arr
+    while z3.is_app(a) and a.decl().kind() == z3.Z3_OP_STORE:
+        base, i, v = a.arg(0), a.arg(1), a.arg(2)
+        if i.eq(idx):
+            return v
+        if z3.is_int_value(i) and z3.is_int_value(idx) and i.as_long() != idx.as_long():
+            a = base
+            continue
+        if z3.is_string_value(i) and z3.is_string_value(idx) and i.as_string() != idx.as_string():
+            a = base
+            continue
+        return z3.Select(arr, idx)
+    return z3.Select(a, idx)
+
+
+class Decomps:
+    """Registry of sequence decompositions  whole == left . right  with  |left| == cut  (under guard).
+    Two decompositions of the same sequence at the same cut have equal parts; a decomposition of a
+    part extends to the whole.  These are theorems of the theory of sequences - consequences of what
+    the path condition already says, not new assumptions - stated explicitly because z3's sequence
+    solver does not find them inside larger queries (DESIGN 3.5: no arrangement search left to the solver)."""
+    def __init__(self, ctx):
+        self.ctx = ctx
+        self.entries = []
+
+    @staticmethod
+    def same(a, b):
+        d = z3.simplify(a - b)
+        return z3.is_int_value(d) and d.as_long() == 0
+
+    def register(self, whole, left, right, cut, guard=None, derive=True):
+        guard = z3.BoolVal(True) if guard is None else guard
+        new = (whole, left, right, cut, guard)
+        for e in list(self.entries):
+            if e[0].eq(whole) and self.same(e[3], cut) and not (e[1].eq(left) and e[2].eq(right)):
+                names = [x for x in (e[1], e[2], left, right) if z3.is_const(x)]
+                self.ctx.assume(z3.Implies(z3.And(e[4], guard), z3.And(e[1] == left, e[2] == right)), defines=names)
+        self.entries.append(new)
+        if not derive:
+            return
+        for e in list(self.entries[:-1]):
+            g = z3.And(e[4], guard)
+            if e[1].eq(whole):        # e.whole == whole . e.right
+                self.register(e[0], left, z3.Concat(right, e[2]), cut, g, derive=False)
+            if e[2].eq(whole):        # e.whole == e.left . whole
+                self.register(e[0], z3.Concat(e[1], left), right, e[3] + cut, g, derive=False)
+            if left.eq(e[0]):         # whole == e.whole . right
+                self.register(whole, e[1], z3.Concat(e[2], right), e[3], g, derive=False)
+            if right.eq(e[0]):        # whole == left . e.whole
+                self.register(whole, z3.Concat(left, e[1]), e[2], cut + e[3], g, derive=False)
 
 
 class PathResult:
